@@ -878,12 +878,15 @@ class ServiceDiscover:
     def handle_offer(
         self, entry: someip.header.SOMEIPSDEntry, addr: _T_SOCKADDR
     ) -> None:
+        if entry.ttl == 0:
+            # a withdrawal applies to the stored offer no matter who is watching right now:
+            # the record may stem from a listener that has left since, and the next
+            # listener would be told about an offer that was withdrawn
+            self.service_offer_stopped(addr, entry)
+            return
         if not self.is_watching_service(entry):
             return
-        if entry.ttl == 0:
-            self.service_offer_stopped(addr, entry)
-        else:
-            self.service_offered(addr, entry)
+        self.service_offered(addr, entry)
 
     def is_watching_service(self, entry: someip.header.SOMEIPSDEntry):
         if self.watcher_all_services:
